@@ -4,6 +4,7 @@ from __future__ import annotations
 import email.message
 import io
 import os
+import re
 import tarfile
 import zipfile
 
@@ -35,6 +36,13 @@ def _zip(members: list[tuple[str, bytes]], method=zipfile.ZIP_DEFLATED) -> bytes
             zi.compress_type = zipfile.ZIP_STORED if name == "mimetype" else method
             z.writestr(zi, data)
     return bio.getvalue()
+
+
+def _rezip(data: bytes, replace: dict[str, bytes | None]) -> bytes:
+    """the same package with some members replaced (None: dropped)"""
+    zin = zipfile.ZipFile(io.BytesIO(data))
+    return _zip([(zi.filename, replace.get(zi.filename, zin.read(zi)) if zi.filename in replace else zin.read(zi)) for zi in zin.infolist()
+                 if not (zi.filename in replace and replace[zi.filename] is None)])
 
 
 def _tar(members: list[tuple[str, bytes]], mode="w") -> bytes:
@@ -155,7 +163,7 @@ def _odf_picture_frames() -> tuple[str, list[tuple[str, bytes]]]:
                 t = "" if title is None else ("<svg:title/>" if title == "" else f"<svg:title>{title}{i}</svg:title>")
                 d = "" if desc is None else ("<svg:desc/>" if desc == "" else f"<svg:desc>{desc}{i}</svg:desc>")
                 n = "" if name is None else f' draw:name="{name}{i}"'
-                frames.append(f'<draw:frame{n} svg:width="2cm" svg:height="1cm"><draw:image xlink:href="{href}" xlink:type="simple"/>{t}{d}</draw:frame>')
+                frames.append(f'<draw:frame{n} svg:width="2.54cm" svg:height="1.27cm"><draw:image xlink:href="{href}" xlink:type="simple"/>{t}{d}</draw:frame>')
     return "".join(frames), files
 
 
@@ -308,6 +316,20 @@ def generated() -> dict[str, bytes]:
     g["gen/a.odp"] = _odp()
     for k in ("odt", "odp", "ods", "odg"):
         g[f"gen/pictures.{k}"] = _odf_pictures(k)
+    # the same packages with every descriptive property present but EMPTY (element there, no text) -- what a template or an
+    # exporter that fills nothing in leaves behind; and with the properties part missing altogether
+    empty_core = CORE
+    for tag in ("dc:title", "dc:creator", "dc:subject", "cp:keywords", "dc:description"):
+        empty_core = re.sub(rf"<{tag}>[^<]*</{tag}>", f"<{tag}/>", empty_core)
+    empty_core = re.sub(r"<dcterms:created [^>]*>[^<]*</dcterms:created>",
+                        '<dcterms:created xsi:type="dcterms:W3CDTF"/><dcterms:modified xsi:type="dcterms:W3CDTF"></dcterms:modified>', empty_core)
+    for k in ("docx", "xlsx"):
+        src = g["gen/a.docx"] if k == "docx" else g["gen/ragged.xlsx"]
+        g[f"gen/emptycore.{k}"] = _rezip(src, {"docProps/core.xml": empty_core.encode()})
+        g[f"gen/nocore.{k}"] = _rezip(src, {"docProps/core.xml": None})
+    empty_meta = re.sub(r"<(dc:title|meta:initial-creator|dc:creator|dc:subject|meta:keyword|dc:description|meta:creation-date)>[^<]*</\1>", r"<\1/>", ODF_META)
+    g["gen/emptymeta.odt"] = _rezip(g["gen/a.odt"], {"meta.xml": empty_meta.encode()})
+    g["gen/emptymeta.ods"] = _rezip(g["gen/a.ods"], {"meta.xml": empty_meta.encode()})
     g["gen/a.epub"] = _epub()
     g["gen/a.eml"] = _eml()
     g["gen/att.eml"] = _eml([("note.txt", b"attached text\n"), ("doc.docx", g["gen/a.docx"]), ("blob.bin", b"\x00\x01\x02")])
